@@ -71,6 +71,11 @@ CHECKS = {
         "for every periodic random stream of period 2/3 over 4 values: result closed, valid for the grammar, same root, expanded part unchanged.",
    note="Trusted: tree validator, random stub. [decoder]. Outside: Mutator.mutate/swap_subtrees (raise TypeError from the installed `returns` library on the unchanged tree), aperiodic streams.",
    design="§3 C12"),
+ "C14": dict(level="other", technique="CrossHair (z3): symbolic target length / start nonterminal / target count enumerated by the solver, real create_fixed_length_tree and count() with stubbed random streams",
+   text=BOUNDED + "create_fixed_length_tree for every target length 0..8/14, 4 grammars x every nonterminal as start, every periodic random stream: a returned tree is closed, valid and has exactly the requested length. "
+        "count() on every partial tree decodable from <= 4/6 choices, targets -1..4, 3 needles: verdicts agree with the needle count and reachability; completions have exactly the target count and no open leaf that can still produce a needle.",
+   note="Trusted: validator, needle counting, GrammarGraph.reachable. [decoder]. Only soundness of returned trees is claimed (None always allowed). Outside: numeric model-value parsing, larger targets.",
+   design="§3 C14"),
 }
 NOT_APPLICABLE = {
  "C21": "needs end-to-end solve() on the shipped formalizations plus external validators (docutils, XML parser): the solver loop is a heap algorithm around Z3 calls that no engine here can encode, and the validators are not solver objects",
